@@ -12,6 +12,7 @@ import (
 	"strconv"
 	"strings"
 	"sync"
+	"unsafe"
 
 	li "github.com/corazawaf/libinjection-go"
 
@@ -230,6 +231,32 @@ func c14Lookalikes() []string {
 	return c14Look
 }
 
+// c14EmbeddedPhrases: ordinary sentences in which a word ENDS with the first
+// keyword of an attack phrase and the next word BEGINS with the second
+// ("family reunion selection committee"): a pattern search without word
+// boundaries reads "union select".
+func c14EmbeddedPhrases() []string {
+	var out []string
+	pairs := [][2]string{{"union", "select"}, {"or", "select"}, {"and", "sleep"}, {"order", "by"}, {"group", "by"}, {"insert", "into"}, {"drop", "table"}, {"select", "from"}, {"union", "all"}, {"having", "count"}, {"like", "char"}, {"exec", "xp"}, {"waitfor", "delay"}, {"into", "outfile"}, {"load", "file"}, {"is", "null"}}
+	pre := []string{"re", "x", "pre", "dis", "b"}
+	suf := []string{"ion", "ed", "s", "er", "x"}
+	frames := []string{"the family %s %s committee met 5 times", "%s %s", "a %s %s b c d e f", "1 %s %s 2 3 4 5 6", "%s %s of 7 items in 3 boxes on 2 shelves"}
+	for _, p := range pairs {
+		for i, a := range pre {
+			w1 := a + p[0]
+			w2 := p[1] + suf[i]
+			if !c14Admitted(w1) || !c14Admitted(w2) {
+				continue
+			}
+			for _, f := range frames {
+				out = append(out, fmt.Sprintf(f, w1, w2))
+				out = append(out, fmt.Sprintf(f, strings.ToUpper(w1), strings.ToUpper(w2)))
+			}
+		}
+	}
+	return out
+}
+
 func c14NearKeyword(r *core.Rng) string {
 	c14KeywordWords()
 	for tries := 0; tries < 16; tries++ {
@@ -335,7 +362,7 @@ func c14Instantiate(shape string, r *core.Rng, words []string) string {
 func c14() *core.Check {
 	return &core.Check{
 		ID: "C14",
-		Rule: "G_benign against the LIVE keyword table: word = [A-Za-z_][A-Za-z0-9_]* from a frozen list (4000 English words in three capitalisations + identifier shapes of length 1-40), also behind 28 identifier prefixes (sp_, xp_, pg_, is_, ... one family per sequence) and mixed with marker-like words (sp_password, near-keywords) that is not a key, component or dotted prefix of a key; number = [0-9]+ incl. 31/32/33-digit runs; (1) the token-class abstraction exhaustively: all 62 sequences over {n,1} of length 1-5 must be absent from the live blacklist; (2) every sequence shape over {word,number} up to length 7 joined by single spaces, 64 (thorough 16384) random instantiations each; (3) e-mail / decimal / sentence shapes incl. apostrophes, near-keyword words (one letter glued to a keyword) and random identifiers (those not dropped by the one-time calibration), sampled; (4) 24 M (thorough 300 M) inputs built from distinct random identifiers between numbers; (5) ~30 000 keyword look-alikes (digits for look-alike letters, one letter dropped / doubled / swapped, common suffixes; those that are not table words) in six frames; (6) one identifier of 2^k+d letters (k up to 16, d = -34..34, also 65568+d) whose tail spells a keyword; multi-word keys glued into one identifier; base64 / hex spellings of injection strings; (7) benign bodies of 128 KiB-16 MiB (thorough 64 MiB); (8) long benign texts whose first and last 2^k bytes would join into a keyword. Oracle: IsSQLi = (false,\"\"). " +
+		Rule: "G_benign against the LIVE keyword table: word = [A-Za-z_][A-Za-z0-9_]* from a frozen list (4000 English words in three capitalisations + identifier shapes of length 1-40), also behind 28 identifier prefixes (sp_, xp_, pg_, is_, ... one family per sequence) and mixed with marker-like words (sp_password, near-keywords) that is not a key, component or dotted prefix of a key; number = [0-9]+ incl. 31/32/33-digit runs; (1) the token-class abstraction exhaustively: all 62 sequences over {n,1} of length 1-5 must be absent from the live blacklist; (2) every sequence shape over {word,number} up to length 7 joined by single spaces, 64 (thorough 16384) random instantiations each; (3) e-mail / decimal / sentence shapes incl. apostrophes, near-keyword words (one letter glued to a keyword) and random identifiers (those not dropped by the one-time calibration), sampled; (4) 24 M (thorough 300 M) inputs built from distinct random identifiers between numbers; (5) ~30 000 keyword look-alikes (digits for look-alike letters, one letter dropped / doubled / swapped, common suffixes; those that are not table words) in six frames; (6) one identifier of 2^k+d letters (k up to 16, d = -34..34, also 65568+d) whose tail spells a keyword; multi-word keys glued into one identifier; base64 / hex spellings of injection strings; (7) benign bodies of 128 KiB-16 MiB (thorough 64 MiB); (8) long benign texts whose first and last 2^k bytes would join into a keyword; (9) sentences in which one word ends with and the next begins with the two keywords of an attack phrase; every eighth input is also asked through a zero-copy view of a recycled buffer that held an equally long attack one call earlier. Oracle: IsSQLi = (false,\"\"). " +
 			"Non-trivial = every instance; distinct by string. The per-context fingerprints are recorded to show that the n/1 abstraction is what the implementation produced.",
 		Exhaustive: false,
 		Plan: func(tier string, seed uint64) []core.Unit {
@@ -358,6 +385,7 @@ func c14() *core.Check {
 			us = append(us, gen.RangeUnits("longword", uint64(len(c14LongBounds)*69), 23, "")...)
 			us = append(us, gen.RangeUnits("huge", uint64(len(hugeSizes(tier))*3), 1, tier)...)
 			us = append(us, gen.RangeUnits("splice", uint64(len(c14SpliceCuts)*len(c14SpliceWords)), 4, "")...)
+			us = append(us, core.Unit{Gen: "embedded", Lo: 0, Hi: 1})
 			return us
 		},
 		Gen: func(w *core.Worker, u core.Unit, emit func(core.Case)) {
@@ -436,6 +464,10 @@ func c14() *core.Check {
 						emit(core.Case{In: word + " 25", Kind: "longword"})
 						emit(core.Case{In: "7 " + word + " 3", Kind: "longword"})
 					}
+				}
+			case "embedded":
+				for _, in := range c14EmbeddedPhrases() {
+					emit(core.Case{In: in, Kind: "embedded"})
 				}
 			case "splice":
 				// long benign text in which the first c bytes end with the head of a
@@ -528,6 +560,33 @@ func c14() *core.Check {
 				// each one is a new entry for any cache
 				li.IsSQLi(c14Attacks[(st.n/8)%len(c14Attacks)] + " -- " + strconv.Itoa(st.n*31+w.ID))
 			}
+			if st.n%8 == 4 && len(c.In) >= 24 && len(c.In) <= 4096 {
+				// a caller that recycles its request buffer (zero-copy string views,
+				// as fasthttp-style servers hand them out): an attack of exactly this
+				// input's length is scanned from the buffer, then the buffer is
+				// overwritten in place with the benign input and scanned again. A
+				// library that keeps a reference to an earlier input compares the
+				// new bytes with "themselves" and answers from memory.
+				n := len(c.In)
+				if cap(st.buf) < n {
+					st.buf = make([]byte, n, 2*n)
+				}
+				buf := st.buf[:n]
+				att := c14Attacks[(st.n/8)%len(c14Attacks)] + " -- "
+				if len(att) <= n {
+					copy(buf, att)
+					for i := len(att); i < n; i++ {
+						buf[i] = 'x'
+					}
+					view := unsafe.String(&buf[0], n)
+					li.IsSQLi(view)
+					copy(buf, c.In)
+					if ab, af := li.IsSQLi(view); ab || af != "" {
+						w.ViolateConfirmed("benign-reported", fmt.Sprintf("IsSQLi(%q) = (%v,%q) when the caller's buffer had held an attack of the same length one call earlier (zero-copy string view over a recycled buffer): the library kept a reference to the earlier input", c.In, ab, af))
+					}
+					w.Count("recycled_buffer_asks", 1)
+				}
+			}
 			if st.n%16 == 0 {
 				slot := (st.n / 16) % len(st.ring)
 				if old := st.ring[slot]; old != "" {
@@ -592,6 +651,7 @@ var c14LongBounds = []int{32, 64, 128, 256, 1024, 4096, 32768, 65536, 65568}
 type c14State struct {
 	n    int
 	ring [32]string
+	buf  []byte
 }
 
 var c14Attacks = []string{"1 union select 1 from t", "1' or '1'='1", "1; drop table t", "x' and sleep(5) -- ", "1 or 1=1", "admin'--", "1\" or 1=1 #", "1 /*!50000union*/ select 1", "1 and 1=1 union select null,null -- ", "' or 'a'='a"}
